@@ -2138,6 +2138,15 @@ class Mailbox:
         for seq in self.sequences.keys():
             for msg_key in to_delete:
                 self.sequences[seq].discard(msg_key)
+
+        # The folder's .mh_sequences must not mention the removed messages
+        # either: MH gives the next delivered message the lowest free number
+        # above the highest one, so a freed number is reused and the new
+        # message would inherit the old one's flags.
+        #
+        async with self.mh_sequences_lock:
+            self.set_sequences_in_folder(self.sequences)
+
         self.num_recent = len(self.sequences["Recent"])
         await self.commit_to_db()
         self.optional_resync = False
